@@ -57,6 +57,40 @@ def observer(got, pred, sp, call, sg, prog, ctx, part):
                 return
     if ctx.pars:
         param_step(got, den, D, used, ctx, part, bad)
+    iterative_engine(got, den, D, used, pts, ctx, part, bad)
+
+
+def iterative_engine(got, den, D, used, pts, ctx, part, bad):
+    """gradient() has two engines (recursive below a depth threshold, an explicit-stack one above it); the second is
+    forced on the same small expressions by lowering the threshold from outside: the derivative must be the same one."""
+    from optyx.core.autodiff import gradient
+    from .c15 import lowered
+    for key, dterm in D.items():
+        vname = name_of(key)
+        if vname not in used:
+            continue
+        var = ctx.varmap[vname]
+        try:
+            with lowered(0):
+                g = gradient(got, var)
+        except Exception as e:
+            bad('gradient raises %s on the iterative engine' % type(e).__name__, {'wrt': vname})
+            return
+        for pt in pts[:3]:
+            try:
+                want, tol = progjudge.oracle(dterm, pt, ctx.pars)
+            except Irregular:
+                continue
+            try:
+                have = progjudge.tofloat(g.evaluate(progjudge.fvals(pt)))
+            except Exception as e:
+                bad('gradient expression (iterative engine) raises %s on evaluation' % type(e).__name__, {'wrt': vname})
+                return
+            part['evaluations'] += 1
+            if not interp.close(have, want, max(tol, ctx.looser * (1 + abs(want)))):
+                bad('gradient value on the iterative engine differs from the true partial derivative',
+                    {'wrt': vname, 'got': have, 'expected': want, 'point': {k: str(v) for k, v in pt.items()}})
+                return
 
 
 def param_step(got, den, D, used, ctx, part, bad):
